@@ -65,8 +65,11 @@ def canon_text(obj) -> str:
 
 
 def tags_only(root):
-  return [sorted((repr(k), sorted(t.__name__ for t in ts)) for k, ts in b.__argument_tags__.items() if ts)
-          for b in buildables(root)]
+  # a multiset: the order in which Buildables are met depends on __arguments__ insertion order,
+  # which copies and the JSON round trip may legitimately change
+  return sorted((l2.sym_name(b.__fn_or_cls__),
+                 sorted((repr(k), sorted(t.__name__ for t in ts)) for k, ts in b.__argument_tags__.items() if ts))
+                for b in buildables(root))
 
 
 def check_set_tagged(rng, res, intern, stream, root, label):
@@ -150,7 +153,7 @@ def check_set_tagged(rng, res, intern, stream, root, label):
     after = enc.reencode()
     lt_g = g_list(sorted((g_N(intern("tag:" + t.__name__)) for t in lt), key=lambda s: int(s.split("%")[0])))
     stream.add(f"(mkcase {enc.sigenv()} {subtag_table(intern)} {in_heap} {root_ref} "
-               f"{g_N(intern('tag:' + tag.__name__))} {xref} {lt_g} {after.heap()})",
+               f"{g_N(intern('tag:' + tag.__name__))} {xref} {common.g_bool(use_select)} {lt_g} {after.heap()})",
                meta={"label": label, "root": repr(root)[:1000], "tag": tag.__name__, "value": repr(value)})
   if len(res.samples) < 3:
     res.samples.append({"root": repr(root)[:500], "tag": tag.__name__, "value": repr(value)})
@@ -176,12 +179,7 @@ def check_survival(rng, res, root, label):
     return
   for name, out in outs.items():
     got = tags_only(out)
-    if name in ("copy", "cast"):
-      ok = got[-1:] == want[-1:] if want else True
-      # top-level node is last in post-order; nested ones are shared, hence identical
-      ok = ok and sorted(map(repr, got)) == sorted(map(repr, want))
-    else:
-      ok = got == want
+    ok = got == want
     if not ok:
       res.failures.append(Failure(None, f"C14 {label}: tags lost or changed by {name}",
                                   {"root": repr(root)[:1200], "want": repr(want)[:500], "got": repr(got)[:500]}))
